@@ -153,14 +153,14 @@ void run_C02(void) {
             uint64_t h = mix64(ctr);
             for (int native = 1; native >= 0; native--) {
               // quick: every shape natively on N in {2,4,8,16}, half of them generically; sampled on 32, 64
-              int take = th ? 1 : (boxN[ni] <= 16 ? (native || (h & 1)) : ((h >> 1) % 4 == 0));
+              int take = th ? 1 : (boxN[ni] <= 32 ? 1 : ((h >> 1) % 2 == 0));
               if (take) one_case(boxN[ni], nrows, ncols, as, rs, (unsigned)(h >> 8) % 3, native, (int)((h >> 12) % 4 == 0), 0);
             }
           }
   // sampled sub-box on every larger N
   for (size_t ni = 6; ni < N_ALL_N; ni++) {
     const uint64_t N = ALL_N[ni];
-    unsigned n = th ? (N <= 1024 ? 400 : (N <= 8192 ? 60 : 12)) : (N <= 1024 ? 40 : (N <= 8192 ? 10 : 3));
+    unsigned n = th ? (N <= 1024 ? 3000 : (N <= 8192 ? 400 : 60)) : (N <= 1024 ? 150 : (N <= 8192 ? 30 : 6));
     for (unsigned t = 0; t < n; t++) {
       uint64_t h = mix64(N * 1000 + t);
       uint64_t lim = N <= 1024 ? 5 : 3;
@@ -169,7 +169,7 @@ void run_C02(void) {
   }
   // sampled large shapes (nrows up to 40, ncols up to 12)
   {
-    unsigned n = th ? 300 : 24;
+    unsigned n = th ? 3000 : 120;
     for (unsigned t = 0; t < n; t++) {
       uint64_t h = mix64(0xABCDEF + t);
       uint64_t N = ALL_N[(h >> 40) % 8];  // 2..256
